@@ -133,6 +133,12 @@ pub fn pop_text(op: &POp, isa: &Isa) -> String {
     }
 }
 
+thread_local! {
+    /// salt of the "tight commas" choice: 0 for the base rendering; the spacing variant of C07 sets another value so
+    /// that the optional blanks of the rule PATTERNS change too (instruction lines always carry the blank)
+    pub static TIGHT_SALT: std::cell::Cell<u64> = std::cell::Cell::new(0);
+}
+
 pub fn rule_text(r: &Rule, isa: &Isa) -> String {
     let mut s = r.mnemonic.clone();
     // v2: a third of the rules (chosen by a hash of the rule, not by the tape) are written WITHOUT the optional
@@ -143,7 +149,10 @@ pub fn rule_text(r: &Rule, isa: &Isa) -> String {
         for o in &r.ops {
             key.push_str(&pop_text(&o.op, isa));
         }
-        crate::engine::fnv(key.as_bytes()) % 3 == 0
+        // (independent of letter case: the recased variant keeps the spelling of the blanks)
+        let h = crate::engine::fnv(key.to_ascii_lowercase().as_bytes());
+        let salt = TIGHT_SALT.with(|c| c.get());
+        if salt == 0 { h % 3 == 0 } else { crate::engine::mix(h, salt) % 2 == 0 }
     };
     for (i, o) in r.ops.iter().enumerate() {
         s.push_str(if i == 0 { " " } else if tight { "," } else { ", " });
